@@ -4,13 +4,11 @@ Spec: spec/SumTree.tla (abstract map + node-level transcription of node.go/tree.
 Legs: exhaustive TLC of both layers (MCSumTree); spec->impl replay of one behaviour per
 transition of the model's reachable graph on the real tree (all queries over all keys and
 key pairs, node dumps); impl->spec validation of recorded random histories by TLC
-(TraceSumTree, monitor form).  Every deviation is classified; known defects of the
-unchanged tree are reported through ctx.finding, anything else is a violation.
-
-Environment (development aids, not needed for a normal run):
-  VERIF_KNOWN_FINDINGS_EXTRA=<file>  additional known-finding entries (docs/findings_c16.json until merged)
-  VERIF_C16_KEEPEMPTY=1              judge a tree patched with docs/fix_c16_4.diff: childless nodes are legal,
-                                     behaviours are generated from the repaired model (Fix = AllFixes)"""
+(TraceSumTree, monitor form).  Every deviation is a violation: the five defects the
+first runs exhibited (docs/findings_c16.json) were repaired by four `fix:` commits in /repo
+(docs/fix_c16_*.diff), so the model of "the code as it is" is Fix = AllFixes (emptied nodes
+stay in the tree); Fix = {} (the algorithms before the repairs) is kept as the non-vacuity
+witness: TLC must find the defects in it."""
 import collections, concurrent.futures, json, os, time
 import vlib
 from vlib import Infra, Violation, log
@@ -26,17 +24,15 @@ MANIFEST = {
                  "recorded random histories trace-validated by TLC",
     "text": "SumTree.tla has the sorted map (queries as folds) and a node-for-node transcription of push/pull/"
             "updateAccumulation/accumulationSplit with fan-out M. TLC proves on bounded scopes (5-7 keys, M=2..5) "
-            "that without Remove the algorithms refine the map except for the nil-nil total, and that four small "
-            "repairs make everything hold with Remove. Every transition of the reachable graph of <<map, store>> "
-            "(clean part, plus the first step into every structural defect) is executed on the real tree over an "
+            "that the algorithms (with the four repairs landed in /repo) refine the map for all operations and that "
+            "the pre-repair algorithms do not (witness). Every transition of the reachable graph of <<map, store>> "
+            "is executed on the real tree over an "
             "in-memory store: Get/PrefixSum/SplitAcc over all probe keys, SubsetAccumulation and (reverse) iteration "
             "over all pairs incl. nil, total, node dump checked for sorted children, accumulation = subtree sum, "
             "reachability, partition, separator nesting; the real node dump is also compared with the model's store "
             "(fidelity). Random histories (m in 2..32, keys of length 0-3 with shared prefixes, negative/zero values, "
             "with and without Remove, NewTree re-opening) are recorded from the real tree and judged line by line "
-            "by TLC. Deviations are classified; known defects (nil-nil total, index -1 after removing a node's "
-            "first child, nil root after removing every key, stale separator / stale accumulation after Remove "
-            "empties a node) go through known_findings, everything else is a violation.",
+            "by TLC. Any deviation (answer, panic, leaf set, order, node structure) is a violation.",
     "note": TRUST + " SubsetAccumulation with start > end is outside the statement (no answer demanded).",
 }
 BUILD = [("./lite/sumtree/", "sumtree")]
@@ -77,8 +73,8 @@ SIGS = {
     "remove:accumulation-mismatch": "Remove that merges siblings stores the accumulation of the left node computed before the merge",
 }
 ORIGIN_DEFECTS = ("separator-without-node", "accumulation-mismatch")
-# VERIF_C16_KEEPEMPTY=1: judge a tree patched with docs/fix_c16_4.diff, where emptied nodes legally stay
-KEEPEMPTY = bool(os.environ.get("VERIF_C16_KEEPEMPTY"))
+# emptied nodes legally stay in the tree since the fix of Remove (docs/fix_c16_4.diff, landed)
+KEEPEMPTY = True
 TRACE_CFG_KEEPEMPTY = """SPECIFICATION TraceSpec
 CONSTANTS
   M = 2
@@ -95,21 +91,8 @@ def mc_cfg(m, fix, keys, ops, tail, vals="1", maxabs=1, depth=80, beyond="TRUE",
 
 
 def classify(d):
-    """d: normalised deviation.  Returns a known signature or None (= violation)."""
-    org = d.get("origin")
-    if org:
-        # a structural defect exists in this history: everything from its first appearance on is
-        # attributed to it, provided it appeared at a Remove and is one of the two known kinds
-        if org["a"] == "rem" and org["defect"] in ORIGIN_DEFECTS:
-            return "remove:" + org["defect"]
-        return None
-    if d["kind"] == "query" and (d["q"] == "total" or (d["q"] == "subset" and d["shape"] == "nil-nil")) \
-            and d.get("got") == d.get("valempty"):
-        return "total:nil-nil"
-    if d["kind"] == "query-panic" and "index out of range [-1]" in str(d.get("got")) and d.get("gap"):
-        return "query-panic:index-1:first-child-removed"
-    if d["kind"] == "query-panic" and "nil pointer" in str(d.get("got")) and d.get("noleaves"):
-        return "query-panic:nil-root:all-keys-removed"
+    """d: normalised deviation.  Returns a known signature or None (= violation).  All five defects
+    once listed in SIGS are repaired in /repo (`fixed:` entries of known_findings.json suppress nothing)."""
     return None
 
 
@@ -129,22 +112,25 @@ def describe(d):
 def run_mc(ctx, cov):
     q = ctx.quick
     jobs = []
-    # (a) the algorithms as they are, without Remove: refinement (all queries but the nil-nil total) + structure
-    # (b) with the proposed repairs, all operations: everything
+    # the algorithms as they are in /repo (Fix = AllFixes), all operations: refinement of the sorted map
+    # (every query incl. the nil-nil total) + node structure
     for m in ((2, 3, 4) if q else (2, 3, 4, 5)):
-        ks = "Keys5" if q else ("Keys6" if m == 2 else "Keys7")
-        jobs.append(("asis-norem m=%d %s" % (m, ks),
-                     mc_cfg(m, "NoFix", ks, NOREM, "INVARIANTS Refines Structure", maxabs=1)))
-        jobs.append(("repaired-allops m=%d %s" % (m, "Keys5" if q else "Keys6"),
-                     mc_cfg(m, "AllFixes", "Keys5" if q else "Keys6", ALLOPS, "INVARIANTS Refines Structure",
-                            total="TRUE")))
-    jobs.append(("asis-norem m=1 Keys4", mc_cfg(1, "NoFix", "Keys4", NOREM, "INVARIANTS Refines Structure")))
+        ks = "Keys5" if q else ("Keys6" if m <= 3 else "Keys7")
+        jobs.append(("code-allops m=%d %s" % (m, ks),
+                     mc_cfg(m, "AllFixes", ks, ALLOPS, "INVARIANTS Refines Structure", total="TRUE")))
+    jobs.append(("code-norem m=1 Keys4", mc_cfg(1, "AllFixes", "Keys4", NOREM, "INVARIANTS Refines Structure", total="TRUE")))
     if not q:
-        jobs.append(("asis-norem m=2 Keys5 vals{1,2}", mc_cfg(2, "NoFix", "Keys5", NOREM, "INVARIANTS Refines Structure",
-                                                               vals="1, 2", maxabs=2)))
-        for m in (2, 3):
-            jobs.append(("queryfixes-norem m=%d" % m, mc_cfg(m, "QueryFixes", "Keys6", NOREM,
-                                                              "INVARIANTS Refines Structure", total="TRUE")))
+        jobs.append(("code-allops m=2 Keys5 vals{1,2}", mc_cfg(2, "AllFixes", "Keys5", ALLOPS, "INVARIANTS Refines Structure",
+                                                                 vals="1, 2", maxabs=2, total="TRUE")))
+    # witnesses (must fail): the pre-repair algorithms break the refinement / the structure
+    wits = [("witness-prefix m=2 total", mc_cfg(2, "NoFix", "Keys4", NOREM, "INVARIANTS Refines", total="TRUE"), "Refines"),
+            ("witness-prefix m=2 remove-structure", mc_cfg(2, "NoFix", "Keys5", ALLOPS, "INVARIANTS Structure"), "Structure"),
+            ("witness-prefix m=2 remove-queries", mc_cfg(2, "QueryFixes", "Keys5", ALLOPS, "INVARIANTS Refines", total="TRUE"), "Refines")]
+
+    def wit(job):
+        name, cfg, inv = job
+        r = vlib.tlc("MCSumTree.tla", "mc.cfg", workers=2, timeout=1200, heap="4g", tag="C16-wit", cfg_text=cfg)
+        return name, inv, r
 
     def one(job):
         name, cfg = job
@@ -152,9 +138,17 @@ def run_mc(ctx, cov):
         return name, r
 
     with concurrent.futures.ThreadPoolExecutor(max_workers=4) as ex:
+        wres = list(ex.map(wit, wits))
         results = list(ex.map(one, jobs))
     states = trans = 0
     cov["mc_runs"] = {}
+    cov["mc_witnesses"] = {}
+    for name, inv, r in wres:
+        if r.error or r.violated != inv:
+            raise Infra("non-vacuity witness %s: the pre-repair algorithms were expected to violate %s, got %s"
+                        % (name, inv, r.error or r.violated or "no counterexample"))
+        cov["mc_witnesses"][name] = {"violated": r.violated, "depth": r.depth}
+    log("witnesses: the pre-repair algorithms violate Refines (nil-nil total, queries after Remove) and Structure (as they must)")
     for name, r in results:
         vlib.tlc_must_pass(r, "MCSumTree " + name)
         if r.depth >= 80:
